@@ -35,6 +35,9 @@ def run(chk):
     chk.rule("R02.2", "stored positions are base+i+1 in the loop-invariant header state; last token ends at len()+1")
     chk.rule("R02.3", "write_tokenized_text goes through the iterator and never reads Sentence.boundaries")
     chk.rule("R02.4", "iterator starts at (0,0); surface/tags slice forms")
+    # the written line is the concatenation of what the token loop emits: nothing already written is taken back (shared with C03)
+    from . import fmt as _fmt
+    _fmt.append_only_rule(chk, w, "R02.3", C.S + "::write_tokenized_text")
     b = C.body(w, C.TOKIT_NEXT)
     chk.fn(C.TOKIT_NEXT)
     cf = cfgmod.cfg_of(b)
